@@ -743,6 +743,46 @@ def _toposort_visits(prog, res):
         if isinstance(c, ast.Compare) and isinstance(c.ops[0], ast.NotIn):
           seen = dotted(c.comparators[0])
           expand = dotted(st.targets[0])
+  if top is None:
+    # the vertex is POPPED at the start of the iteration and emitted in the
+    # same iteration: it is emitted before the vertices reachable from it
+    # have been emitted (pre-order / breadth-first order), which is a
+    # topological order only for graphs in which no vertex is reachable by
+    # two paths of different length
+    popped = None
+    for st in loop.body:
+      if isinstance(st, ast.Assign) and isinstance(st.value, ast.Call) and \
+          isinstance(st.value.func, ast.Attribute) and \
+          st.value.func.attr == 'pop' and dotted(
+              st.value.func.value) == stack and isinstance(
+                  st.targets[0], ast.Name):
+        popped = st.targets[0].id
+    emitted = None
+    if popped:
+      for st in loop.body:      # top level of the iteration: unconditional
+        for c in ast.walk(st) if not isinstance(st, (ast.If, ast.For,
+                                                     ast.While)) else []:
+          if isinstance(c, ast.Call) and isinstance(
+              c.func, ast.Attribute) and c.func.attr in (
+                  'append', 'insert') and any(
+                      isinstance(a, ast.Name) and a.id == popped
+                      for a in c.args) and dotted(c.func.value) != stack:
+            emitted = c
+        if isinstance(st, (ast.Assign, ast.AugAssign)) and not isinstance(
+            st.value, ast.Call) and any(
+                isinstance(x, ast.Name) and x.id == popped
+                for x in ast.walk(st.value)) and isinstance(
+                    st.value, (ast.BinOp, ast.List)):
+          emitted = st
+    if popped and emitted is not None:
+      res.violation('O2', key + '|visit-discipline', fn.loc(emitted),
+                    '`%s` is popped from the stack and emitted in the same '
+                    'iteration (`%s`), before the vertices reachable from it '
+                    'are finished: the order is pre-order / breadth-first, '
+                    'not topological, as soon as a vertex is reachable by two '
+                    'paths of different length' % (
+                        popped, norm_text(emitted)[:50]))
+      return
   if top is None or seen is None:
     raise AnalysisError('%s: top of stack / visited set not found' % key)
   bad = []
